@@ -24,6 +24,10 @@ CHECKS = {
          "Every token of every enumerated input is mapped from (line, col) back to a byte offset where its spelling must be found; every error produced by every single-token edit of the corpus must name an involved template, point inside it at its token, and shift exactly with an inserted prefix.",
          "The position convention (line = 1 + LFs before, col = 1 + bytes since line start, strings at their quote) is read from the lexer; one fixture-pinned deviation (load failures) is a recorded known finding.",
          "DESIGN.md §3 C16"),
+ "C07": ("bounded-exhaustive enumeration of all expression trees up to an operator bound, printed in several spellings/spacings, compared with an independent typed tree evaluator",
+         "Every tree with <=2 operators over the full operator set (and <=3 over a reduced set) is evaluated by a reference evaluator that never sees precedence, printed with minimal parentheses for the documented grammar, and rendered by the real engine in output and if position; values, zero-divisor errors and short-circuit call counts are compared.",
+         "The judged fragment excludes what the property leaves open (listed in the evidence rule); one grammar-design deviation (sign of zero under a prefix minus) is a recorded known finding.",
+         "DESIGN.md §3 C07"),
 }
 
 NOT_YET = {}
